@@ -46,6 +46,12 @@ Qed.
 Lemma names_own f : names (own_rparams f) = map sp_name (f_params f).
 Proof. unfold names, own_rparams. rewrite map_map. reflexivity. Qed.
 
+Lemma npos_cap_le f : npos_cap f <= length (f_params f).
+Proof.
+  unfold npos_cap. induction (f_params f) as [|p l IH]; simpl; [lia|].
+  destruct (negb (sp_kwonly p)); simpl; lia.
+Qed.
+
 Lemma length_own f : length (own_rparams f) = length (f_params f).
 Proof. unfold own_rparams. apply map_length. Qed.
 
@@ -283,7 +289,7 @@ Definition call_ok (f' : nat) (P : prog) (fr : frame) (k : callee) (npos : nat)
       exists R', resolve_frame f' P fr' = Ok R' /\
         existsb (fun n => mem_str n given) pgs = false /\
         forallb (fun n => mem_str n pre || mem_str n (names (remove_given npos given R'))) pgs = true /\
-        npos <= length (f_params (fr_fn fr')) /\ nodup_strs given = true /\
+        npos <= npos_cap (fr_fn fr') /\ nodup_strs given = true /\
         forallb (fun g => mem_str g (names (skipn npos R'))) given = true
   end.
 
@@ -336,7 +342,7 @@ Proof.
       destruct (N.eqb (klass f' P fr') 0) eqn:Hk0; cbn [negb] in H.
       2:{ apply N.eqb_neq in Hk0. contradiction. }
       apply N.eqb_eq in Hk0. split; [exact Hk0|]. exists R'. split; [reflexivity|].
-      destruct ((npos <=? length (f_params (fr_fn fr'))) && nodup_strs given
+      destruct ((npos <=? npos_cap (fr_fn fr')) && nodup_strs given
                 && forallb (fun g => mem_str g (names (skipn npos R'))) given) eqn:Hw; [|discriminate].
       apply andb_true_iff in Hw. destruct Hw as [Hw Hw3]. apply andb_true_iff in Hw. destruct Hw as [Hw1 Hw2].
       apply Nat.leb_le in Hw1. auto 10.
@@ -452,7 +458,7 @@ Qed.
 Lemma sound_frame : forall fuel P fr R npos kws,
   klass fuel P fr = 0%N ->
   resolve_frame fuel P fr = Ok R ->
-  npos <= length (f_params (fr_fn fr)) ->
+  npos <= npos_cap (fr_fn fr) ->
   NoDup kws ->
   (forall n, In n kws -> In n (names (skipn npos R))) ->
   good_outcome (fst (call_frame fuel P fr npos kws)) = true.
@@ -474,7 +480,7 @@ Proof.
               In n (map sp_name (skipn npos (f_params (fr_fn fr))))
               \/ (~ In n (map sp_name (f_params (fr_fn fr))) /\ In n (names K))).
     { intros n Hn. apply Hin in Hn. unfold replace_kwargs in Hn.
-      rewrite skipn_app_le in Hn by (rewrite length_own; exact Hnp).
+      rewrite skipn_app_le in Hn by (rewrite length_own; pose proof (npos_cap_le (fr_fn fr)); lia).
       unfold names in Hn. rewrite map_app in Hn. apply in_app_or in Hn. destruct Hn as [Hn|Hn].
       - left. unfold own_rparams in Hn. rewrite skipn_map', map_map in Hn. exact Hn.
       - right. apply in_map_iff in Hn. destruct Hn as (p & Hp & Hpin).
@@ -484,7 +490,7 @@ Proof.
     destruct (bind_ok (f_params (fr_fn fr)) npos true kws Hown) as [bs Hb].
     { intros n Hn. destruct (Hsplit n Hn) as [H|[H _]]; auto. }
     rewrite Hb.
-    assert (Etm : (length (f_params (fr_fn fr)) <? npos) = false) by (apply Nat.ltb_ge; exact Hnp).
+    assert (Etm : (npos_cap (fr_fn fr) <? npos) = false) by (apply Nat.ltb_ge; exact Hnp).
     rewrite Etm.
     destruct (missing (f_params (fr_fn fr)) 0 npos kws); [reflexivity|].
     set (kw := filter (not_own (f_params (fr_fn fr))) kws).
@@ -566,7 +572,7 @@ Proof.
     { intros n Hn. left. apply Hin in Hn. unfold own_rparams, names in Hn.
       rewrite skipn_map', map_map in Hn. exact Hn. }
     rewrite Hb.
-    assert (Etm : (length (f_params (fr_fn fr)) <? npos) = false) by (apply Nat.ltb_ge; exact Hnp).
+    assert (Etm : (npos_cap (fr_fn fr) <? npos) = false) by (apply Nat.ltb_ge; exact Hnp).
     rewrite Etm.
     destruct (missing (f_params (fr_fn fr)) 0 npos kws); reflexivity.
 Qed.
